@@ -45,9 +45,25 @@ func (c08) gen0(rng *rand.Rand, tier string, idx int) Case {
 	if idx%4 == 1 {
 		// ALLOWEDLATENESS > 0: a late row folded into a fired interval still belongs to the pending intervals that cover it
 		late := []int64{1, slide, size, 3 * size}[rng.Intn(4)]
-		c.Cfg = [][]string{{"kind", "sliding"}, {"mode", "et"}, {"size", itoa(size)}, {"slide", itoa(slide)}, {"ooo", itoa(ooo)}, {"late", itoa(late)}, {"now", "0"}}
-		genLateOps(rng, &c, slide, ooo, late)
-		c.Stat = append(c.Stat, "lateness>0")
+		if rng.Intn(4) == 0 {
+			// directed: a fired interval takes a late row, later intervals fire (old rows leave the buffer), then the same
+			// interval takes a second late row — its re-delivery holds the first delivery's rows and BOTH late rows
+			late = 4*size + 4*slide + ooo
+			c.Cfg = [][]string{{"kind", "sliding"}, {"mode", "et"}, {"size", itoa(size)}, {"slide", itoa(slide)}, {"ooo", itoa(ooo)}, {"late", itoa(late)}, {"now", "0"}}
+			t := tsBase + 7*slide + slide/3
+			ops := [][]string{{"add", "1", itoa(t)}, {"add", "2", itoa(t + 1)},
+				{"add", "3", itoa(t + size + ooo + 2*slide)}, {"drain"},
+				{"add", "4", itoa(t + 2)}, // first late row
+				{"add", "5", itoa(t + 2*size + ooo + 4*slide)}, {"drain"},
+				{"add", "6", itoa(t + 3)}, // second late row, same intervals
+				{"add", "7", itoa(t + 3*size + ooo + 6*slide)}, {"drain"}, {"tick"}, {"drain"}}
+			c.Ops = append(c.Ops, ops...)
+			c.Stat = append(c.Stat, "lateness>0", "two-late-rows-with-firings-between")
+		} else {
+			c.Cfg = [][]string{{"kind", "sliding"}, {"mode", "et"}, {"size", itoa(size)}, {"slide", itoa(slide)}, {"ooo", itoa(ooo)}, {"late", itoa(late)}, {"now", "0"}}
+			genLateOps(rng, &c, slide, ooo, late)
+			c.Stat = append(c.Stat, "lateness>0")
+		}
 	} else {
 		c.Cfg = [][]string{{"kind", "sliding"}, {"mode", "et"}, {"size", itoa(size)}, {"slide", itoa(slide)}, {"ooo", itoa(ooo)}, {"late", "0"}, {"now", "0"}}
 		genWindowOps(rng, &c, slide, ooo, false, nil)
